@@ -15,7 +15,7 @@ for ID in $IDS; do
   if ! git -C $WT apply "$PWD/seeded/$ID/patch.diff" 2>/dev/null && ! git -C $WT apply "$PWD/seeded/$ID/patch.diff"; then
     echo "$ID: patch does not apply to the current tree"; RC=2
   else
-    VERIF_REPO=$WT ./check $PROP --tier quick > /tmp/seeded-check-$ID.log 2>&1; C=$?
+    VERIF_REPO=$WT timeout 1800 ./check $PROP --tier quick > /tmp/seeded-check-$ID.log 2>&1; C=$?   # (a seeded change may make the harness crawl: bounded)
     N=$(grep -c '^VIOLATION' /tmp/seeded-check-$ID.log)
     if [ $C -eq 1 ]; then echo "$ID: detected by ./check $PROP --tier quick ($N VIOLATION lines)"; else echo "$ID: NOT detected (exit $C)"; RC=1; fi
     rm -f /tmp/seeded-check-$ID.log
